@@ -87,35 +87,8 @@ func flight0Parse(
 		return 0, &alert.Alert{Level: alert.Fatal, Description: alert.InsufficientSecurity}, dtlserrors.ErrCipherSuiteNoIntersection //nolint:lll
 	}
 
-	for _, val := range clientHello.Extensions {
-		switch ext := val.(type) {
-		case *extension.SupportedGroups:
-			if len(ext.Groups) == 0 {
-				return 0, &alert.Alert{Level: alert.Fatal, Description: alert.InsufficientSecurity}, dtlserrors.ErrNoSupportedEllipticCurves //nolint:lll
-			}
-			namedCurve, ok := selectEllipticCurve(cfg.EllipticCurves, ext.Groups)
-			if !ok {
-				return 0, &alert.Alert{Level: alert.Fatal, Description: alert.InsufficientSecurity}, dtlserrors.ErrNoSupportedEllipticCurves //nolint:lll
-			}
-			state.NamedCurve = namedCurve
-		case *extension12.ExtendedMasterSecret:
-			if cfg.ExtendedMasterSecret != dtlsconfig.DisableExtendedMasterSecret {
-				state.ExtendedMasterSecret = true
-			}
-		case *extension.ServerNameOffer:
-			state.ServerName = ext.ServerName // remote server name
-		case *extension12.RenegotiationInfo:
-			state.RemoteSupportsRenegotiation = true
-		case *extension.ALPNOffer:
-			state.PeerSupportedProtocols = slices.Clone(ext.Protocols)
-		case *extension.CertificateSignatureAlgorithms:
-			// Store the client's certificate signature schemes for later validation
-			state.RemoteCertSignatureSchemes = dtlsflight.SignatureSchemes(ext.Schemes)
-		}
-	}
-
-	if cfg.ExtendedMasterSecret == dtlsconfig.RequireExtendedMasterSecret && !state.ExtendedMasterSecret {
-		return 0, &alert.Alert{Level: alert.Fatal, Description: alert.InsufficientSecurity}, dtlserrors.ErrServerRequiredButNoClientEMS //nolint:lll
+	if dtlsAlert, err := applyClientHelloExtensions(state, cfg, clientHello); err != nil {
+		return 0, dtlsAlert, err
 	}
 
 	if state.LocalKeypair == nil {
@@ -138,6 +111,53 @@ func flight0Parse(
 	}
 
 	return handleHelloResume(clientHello.SessionID, state, cfg, nextFlight)
+}
+
+// applyClientHelloExtensions derives the negotiation state that depends on the
+// ClientHello extensions. It starts from a clean slate so that it can be applied
+// again to the ClientHello that answers a HelloVerifyRequest.
+func applyClientHelloExtensions(
+	state *dtlsstate.State12,
+	cfg *dtlsconfig.HandshakeConfig,
+	clientHello *handshake.MessageClientHello,
+) (*alert.Alert, error) {
+	state.ExtendedMasterSecret = false
+	state.ServerName = ""
+	state.PeerSupportedProtocols = nil
+	state.RemoteCertSignatureSchemes = nil
+
+	for _, val := range clientHello.Extensions {
+		switch ext := val.(type) {
+		case *extension.SupportedGroups:
+			if len(ext.Groups) == 0 {
+				return &alert.Alert{Level: alert.Fatal, Description: alert.InsufficientSecurity}, dtlserrors.ErrNoSupportedEllipticCurves //nolint:lll
+			}
+			namedCurve, ok := selectEllipticCurve(cfg.EllipticCurves, ext.Groups)
+			if !ok {
+				return &alert.Alert{Level: alert.Fatal, Description: alert.InsufficientSecurity}, dtlserrors.ErrNoSupportedEllipticCurves //nolint:lll
+			}
+			state.NamedCurve = namedCurve
+		case *extension12.ExtendedMasterSecret:
+			if cfg.ExtendedMasterSecret != dtlsconfig.DisableExtendedMasterSecret {
+				state.ExtendedMasterSecret = true
+			}
+		case *extension.ServerNameOffer:
+			state.ServerName = ext.ServerName // remote server name
+		case *extension12.RenegotiationInfo:
+			state.RemoteSupportsRenegotiation = true
+		case *extension.ALPNOffer:
+			state.PeerSupportedProtocols = slices.Clone(ext.Protocols)
+		case *extension.CertificateSignatureAlgorithms:
+			// Store the client's certificate signature schemes for later validation
+			state.RemoteCertSignatureSchemes = dtlsflight.SignatureSchemes(ext.Schemes)
+		}
+	}
+
+	if cfg.ExtendedMasterSecret == dtlsconfig.RequireExtendedMasterSecret && !state.ExtendedMasterSecret {
+		return &alert.Alert{Level: alert.Fatal, Description: alert.InsufficientSecurity}, dtlserrors.ErrServerRequiredButNoClientEMS //nolint:lll
+	}
+
+	return nil, nil
 }
 
 func handleHelloResume(
